@@ -126,11 +126,45 @@ def coq_make(targets, timeout=2400):
     return rc == 0, out
 
 
-def coq_gate():
-    """grep gate: nothing under coq/ may declare an axiom, admit a proof or switch off a check.
-    (Variable/Hypothesis are allowed only inside a Section; checked per file.)"""
+def coq_deps():
+    """dependency graph of .vo files from .Makefile.coq.d"""
+    g = {}
+    p = os.path.join(COQ, ".Makefile.coq.d")
+    if not os.path.exists(p):
+        return g
+    for line in open(p).read().replace("\\\n", " ").split("\n"):
+        if ":" not in line:
+            continue
+        lhs, rhs = line.split(":", 1)
+        tg = [x for x in lhs.split() if x.endswith(".vo")]
+        deps = [x for x in rhs.split() if x.endswith(".vo")]
+        for t in tg:
+            g.setdefault(t, set()).update(deps)
+    return g
+
+
+def coq_cone(targets):
+    g = coq_deps()
+    seen = set()
+    todo = list(targets)
+    while todo:
+        t = todo.pop()
+        if t in seen:
+            continue
+        seen.add(t)
+        todo.extend(g.get(t, ()))
+    return sorted(x[:-1] for x in seen)  # .vo -> .v
+
+
+def coq_gate(files=None):
+    """grep gate: no file in the property's cone may declare an axiom, admit a proof or switch off a
+    check.  (Variable/Hypothesis are allowed only inside a Section.)"""
     bad = []
-    for rel in coq_files() + [os.path.relpath(p, COQ) for p in glob.glob(os.path.join(COQ, "Extract", "*.v"))]:
+    if files is None:
+        files = coq_files() + [os.path.relpath(p, COQ) for p in glob.glob(os.path.join(COQ, "Extract", "*.v"))]
+    for rel in files:
+        if not os.path.exists(os.path.join(COQ, rel)):
+            continue
         depth = 0
         text = open(os.path.join(COQ, rel)).read()
         text = re.sub(r"\(\*.*?\*\)", lambda m: "\n" * m.group(0).count("\n"), text, flags=re.S)
@@ -199,7 +233,7 @@ def build_model(cluster, extract_v, drivers, model_deps):
         if not os.path.exists(exe) or os.path.getmtime(exe) < newest(srcs + [model_ml]):
             for s in srcs:
                 shutil.copy(s, d)
-            rc, out = sh(["ocamlfind", "ocamlopt", "-O3", "-unboxed-types" if False else "-w", "-a",
+            rc, out = sh(["ocamlfind", "ocamlopt", "-O3", "-w", "-a",
                           "model.mli", "model.ml", "dmio.ml", drv + ".ml", "-o", drv], cwd=d, timeout=600)
             if rc != 0:
                 return False, "ocaml build of %s failed:\n%s" % (drv, out[-4000:])
@@ -213,6 +247,14 @@ def build_harness(cmds, race=False):
     shutil.copy(os.path.join(REPO, "go.sum"), os.path.join(h, "go.sum"))
     os.makedirs(BIN, exist_ok=True)
     args = ["go", "build", "-tags", "verif"]
+    if os.path.realpath(REPO) != "/repo":
+        # alternative source tree (mutation testing in a scratch worktree): same module, other replace
+        alt = os.path.join(BUILD, "altmod")
+        os.makedirs(alt, exist_ok=True)
+        gm = open(os.path.join(h, "go.mod")).read().replace("=> /repo", "=> " + os.path.realpath(REPO))
+        open(os.path.join(alt, "go.mod"), "w").write(gm)
+        shutil.copy(os.path.join(REPO, "go.sum"), os.path.join(alt, "go.sum"))
+        args.append("-modfile=" + os.path.join(alt, "go.mod"))
     if race:
         args.append("-race")
     outdir = BIN + ("-race" if race else "") + os.sep
@@ -230,6 +272,15 @@ def load_known():
     if not os.path.exists(p):
         return []
     return json.load(open(p))["findings"]
+
+
+def merge_known():
+    """known_findings.json is the committed file the checks read; it is assembled from the
+    per-property files in known_findings.d/ by `./check --manifest` (never at check time)."""
+    out = []
+    for p in sorted(glob.glob(os.path.join(ROOT, "known_findings.d", "*.json"))):
+        out.extend(json.load(open(p)))
+    json.dump({"findings": out}, open(os.path.join(ROOT, "known_findings.json"), "w"), indent=1)
 
 
 # ----------------------------------------------------------------------------- evidence
